@@ -1,6 +1,7 @@
 import PandoraModel.Properties.C12
 import PandoraModel.Properties.C12Kernels
 import PandoraModel.Properties.C12KernelsBounds
+import PandoraModel.Properties.C12KernelsSampled
 open Pandora.C12
 -- tie to the source
 #print axioms stems_from_source
@@ -69,3 +70,5 @@ open Pandora.C12
 #print axioms Pandora.C12Kernels.computeIntervalBounds_generated_finite
 #print axioms Pandora.C12Kernels.bounds_def_generated
 #print axioms Pandora.C12Kernels.bounds_bracket_wta_generated
+-- compute_ambiguity_and_sampled_ambiguity regenerated = (pixelAmbiguity, pixelSampled) (Properties/C12KernelsSampled.lean)
+#print axioms Pandora.C12Kernels.computeAmbiguitySampled_generated_eq
